@@ -401,6 +401,9 @@ def prop_modified(pt, c):
                 return f'is_subsequence({q.serialize()!r}, {t.serialize()!r}) != {bool(exp)}'
             if list(copy.deepcopy(q).find_indices(copy.deepcopy(t))) != exp:
                 return f'find_indices method differs from {exp}'
+            if copy.deepcopy(q).is_subsequence(copy.deepcopy(t)) != bool(exp):
+                return (f'ProFormaAnnotation.is_subsequence: {q.serialize()!r} in {t.serialize()!r} = {not bool(exp)}, '
+                        f'offsets with equal residues and modifications are {exp}')
         occs += [(i, len(q._sequence)) for i in exp]
     if decidable:
         exp = expected_cov(n, occs, c['acc'])
